@@ -84,3 +84,79 @@ pub fn toy_pairings(t: &mut Tally) {
     exhaustive::<mnt6a::Pairing>(t, "toy MNT6-A", 271);
     exhaustive::<mnt6b::Pairing>(t, "toy MNT6-B", 397);
 }
+
+/// C10 for the target group: `PairingOutput` read with Validate::Yes is accepted exactly when the element lies in the order-r
+/// subgroup of the target field (oracle: r-fold naive product), Validate::No returns the field element as is, the encoding
+/// is that of the field element, truncations are rejected without panic, and a vector with one bad element is rejected.
+fn target_ser<P: Pairing>(t: &mut Tally, name: &str, r: u64, seed: u64) {
+    use ark_serialize::{CanonicalDeserialize, CanonicalSerialize, Compress, Validate, Valid};
+    let e = P::pairing(P::G1::generator().into_affine(), P::G2::generator().into_affine()).0;
+    let one = P::TargetField::one();
+    let mut elems: Vec<P::TargetField> = vec![P::TargetField::zero(), one, -one, one + one, e, -e, e + one, e * e, e.inverse().unwrap()];
+    // every member of the order-r group and its negative (order 2r)
+    let mut pw = one;
+    for _ in 0..r { pw *= e; elems.push(pw); elems.push(-pw); }
+    // seeded field elements
+    let mut rng = crate::Rng(seed.wrapping_mul(0x9E3779B97F4A7C15) | 1);
+    let d = P::TargetField::extension_degree() as usize;
+    for _ in 0..1500 {
+        let cs: Vec<<P::TargetField as Field>::BasePrimeField> = (0..d).map(|_| <P::TargetField as Field>::BasePrimeField::from(rng.next())).collect();
+        let f = P::TargetField::from_base_prime_field_elems(cs).unwrap();
+        elems.push(f);
+        // an element of the cyclotomic-style subgroup that is usually not of order r: f^r has order dividing (q^k - 1)/r
+        if !f.is_zero() { elems.push(f.pow([r])); }
+    }
+    let in_group = |f: &P::TargetField| -> bool {
+        if f.is_zero() { return false; }
+        let mut acc = one;
+        for _ in 0..r { acc *= f; }
+        acc.is_one()
+    };
+    let mut members = 0u64;
+    for f in &elems {
+        let ok = in_group(f);
+        if ok { members += 1; }
+        t.check(PairingOutput::<P>(*f).check().is_ok() == ok, || format!("{name}: PairingOutput::check() of {f} (in the order-{r} group: {ok})"));
+        for c in [Compress::Yes, Compress::No] {
+            let mut fb = vec![];
+            f.serialize_with_mode(&mut fb, c).unwrap();
+            let mut pb = vec![];
+            let po = PairingOutput::<P>(*f);
+            t.check(po.serialize_with_mode(&mut pb, c).is_ok() && pb == fb && po.serialized_size(c) == fb.len(), || format!("{name}: PairingOutput encoding / size differs from the target-field element's"));
+            let yes = PairingOutput::<P>::deserialize_with_mode(&fb[..], c, Validate::Yes);
+            t.check(yes.is_ok() == ok && yes.as_ref().map_or(true, |g| g.0 == *f), || format!("{name}: checked read of target-field element {f} as PairingOutput (in the order-{r} group: {ok}) -> {:?}", yes.as_ref().map(|g| g.0)));
+            let no = PairingOutput::<P>::deserialize_with_mode(&fb[..], c, Validate::No);
+            t.check(matches!(&no, Ok(g) if g.0 == *f), || format!("{name}: unchecked read of target-field element {f} as PairingOutput fails"));
+            // inside containers
+            let mut vb = vec![];
+            vec![PairingOutput::<P>(e), po, PairingOutput::<P>(one)].serialize_with_mode(&mut vb, c).unwrap();
+            let vr = Vec::<PairingOutput<P>>::deserialize_with_mode(&vb[..], c, Validate::Yes);
+            t.check(vr.is_ok() == ok, || format!("{name}: checked read of Vec[e, {f}, 1] of PairingOutput (middle in group: {ok})"));
+            let mut ob = vec![];
+            Some(po).serialize_with_mode(&mut ob, c).unwrap();
+            let or = Option::<PairingOutput<P>>::deserialize_with_mode(&ob[..], c, Validate::Yes);
+            t.check(or.is_ok() == ok, || format!("{name}: checked read of Some({f}) of PairingOutput (in group: {ok})"));
+        }
+    }
+    t.check(members >= r, || format!("{name}: fewer than r group members among the samples (vacuous)"));
+    // truncations of a valid encoding: Err, no panic
+    for c in [Compress::Yes, Compress::No] {
+        let mut fb = vec![];
+        e.serialize_with_mode(&mut fb, c).unwrap();
+        for k in 0..fb.len() {
+            let pre = fb[..k].to_vec();
+            for v in [Validate::Yes, Validate::No] {
+                let p2 = pre.clone();
+                let out = t.no_panic(std::panic::AssertUnwindSafe(move || PairingOutput::<P>::deserialize_with_mode(&p2[..], c, v).is_err()), || format!("{name}: PairingOutput truncated to {k} bytes"));
+                if let Some(is_err) = out { t.check(is_err, || format!("{name}: PairingOutput truncated to {k} bytes accepted")); }
+            }
+        }
+    }
+}
+
+pub fn target_serialization(t: &mut Tally, seed: u64) {
+    target_ser::<mnt4a::Pairing>(t, "toy MNT4-A", 257, seed);
+    target_ser::<mnt4b::Pairing>(t, "toy MNT4-B", 313, seed);
+    target_ser::<mnt6a::Pairing>(t, "toy MNT6-A", 271, seed);
+    target_ser::<mnt6b::Pairing>(t, "toy MNT6-B", 397, seed);
+}
